@@ -29,3 +29,4 @@ open Qvnt
 #print axioms session_keysNodup
 #print axioms C12_code_session_total
 #print axioms C12_code_new_total
+#print axioms C12_code_run_total
